@@ -139,12 +139,13 @@ def _num(key, variant, rule_name, params):
         if em is None:
             return False, "rule not applicable at replay"
         U, rest = emitted_matrix(em, wo, borrowed=_borrowed(op))
-        U = np.asarray(sx.evalf(sx.session(), U, {}), dtype=complex) if U.dtype == object else U
+        sess = sx.session()
+        U = np.asarray(sx.evalf(sess, U, sx._const_values(sess)), dtype=complex) if U.dtype == object else U
         cols = domain_columns(op, M.shape[0])
         sel = slice(None) if cols is None else cols
         d = float(np.max(np.abs(U[:, sel] - M[:, sel])))
         for r in rest:
-            r = np.asarray(sx.evalf(sx.CUR, r, {}), dtype=complex)
+            r = np.asarray(sx.evalf(sx.CUR, r, sx._const_values(sx.CUR)), dtype=complex)
             d = max(d, float(np.max(np.abs(r[:, sel]))))
         return d > 1e-6, f"rule {rule_name} on {variant}({key}) at {list(map(float, params))}: max|emitted - matrix| = {d:.3g}"
     return False, "rule not found at replay"
